@@ -259,7 +259,7 @@ def run_property(prop, tier, seed):
                 elif ltoks:      # a named assertion carries its properties in its label
                     props = set(ltoks)
                 else:   # a failed safety condition / invariant leaves every clause of the function unproved
-                    props = set(info["props"]).union(*[set(ps) for ps in info["clause_props"].values()])
+                    props = set().union(*[set(ps) for ps in info["clause_props"].values()]) or set(info["props"])
                     if uname in cfg.get("safety_units", []):
                         props.add(prop)      # panic-freedom of this unit's functions is part of this property
                 if prop not in props and uname in cfg.get("state_equivalence_units", []):
